@@ -94,7 +94,8 @@ def classify(qb: bytes, rb: bytes) -> tuple[frozenset[str], str]:
         out = {MISMATCH}
         inf: dict[str, Any] = {}
         try:
-            T.decode(kr, "rsp", rb, inf)
+            if repeats_record_key(T.decode(kr, "rsp", rb, inf)):
+                inf["open"] = "repeated-record-key"
         except T.Reject:
             out.add(MALFORMED)
         if inf.get("open"):
@@ -116,6 +117,10 @@ def classify(qb: bytes, rb: bytes) -> tuple[frozenset[str], str]:
             out.add(MISMATCH)
         return frozenset(out), "positive|right-service|undecodable"
     st = T.echo_status(kq, qvals, rvals)
+    # a record list keyed by DTC that names one DTC twice: the statement takes no position on whether such a reply is decodable
+    # (gallia refuses it since fix 5f48879 rather than silently dropping a record)
+    if repeats_record_key(rvals):
+        info["open"] = info.get("open") or "repeated-record-key"
     if st == "equal":
         out = {ACCEPT}
         cls = "genuine"
@@ -129,6 +134,13 @@ def classify(qb: bytes, rb: bytes) -> tuple[frozenset[str], str]:
         out.add(MALFORMED)
         cls += "|reserved-encoding"
     return frozenset(out), f"positive|right-service|{cls}"
+
+
+def repeats_record_key(vals: dict[str, Any]) -> bool:
+    return any(
+        isinstance(val, list) and val and all(isinstance(x, tuple) and len(x) == 2 for x in val) and len({x[0] for x in val}) < len(val)
+        for val in vals.values()
+    )
 
 
 # -- observation -----------------------------------------------------------------------------
